@@ -4,6 +4,7 @@ pub mod c13;
 pub mod c14;
 pub mod c15;
 pub mod c16;
+pub mod hist;
 
 pub fn run(name : &str, ctx : &Ctx, out : &mut Out) -> bool
 {
@@ -17,6 +18,7 @@ pub fn run(name : &str, ctx : &Ctx, out : &mut Out) -> bool
         "c15_sha" => c15::sha(ctx, out),
         "c16_history" => c16::history(ctx, out),
         "c16_table" => c16::table(ctx, out),
+        "hist" => hist::histories(ctx, out),
         _ => return false,
     }
     true
